@@ -543,6 +543,22 @@ REG['B31'] = B31
 """, {"A31": lambda ch, u: _b(u.byte()) + u.bytes(1 + ch.draw("n", 3)) + [b";", b","][ch.draw("delim", 2)] + u.bytes(4),
       "B31": lambda ch, u: _b(u.byte()) + u.bytes(1 + ch.draw("n", 3)) + [b";", b","][ch.draw("delim", 2)] + u.bytes(4) + _b(u.byte())})
 
+# 32  callables that look at the raw buffer, the offset and the root packet
+decl("rawcallables", """
+class In32(Packet):
+    __bisturi__ = OPT
+    v = Int(1).repeated(lambda pkt, root, **k: root.n)
+
+class C32(Packet):
+    __bisturi__ = OPT
+    n = Int(1)
+    d = Data(lambda pkt, raw, offset, **k: raw[offset - 1] + 1)
+    inner = Ref(In32)
+    rest = Data(lambda pkt, raw, offset, **k: len(raw) - offset)
+REG['In32'] = In32
+REG['C32'] = C32
+""", {"C32": lambda ch, u: (lambda n: _b(n) + u.bytes(n + 1) + u.bytes(n) + u.bytes(ch.draw("rest", 4)))(ch.draw("n", 4))})
+
 
 BY_NAME = {d["name"]: d for d in POOL}
 
